@@ -105,6 +105,179 @@ func runC07(c *Ctx) {
 		}
 	})
 
+	c.rule("C07.V6", "every hash has a bucket: addHeaders refuses a header whose prefix sub-bucket is missing, so ensureIndexSubBuckets creates one bucket per value of the prefix: its loop counts from 0 to 2^(8*numSubBucketBytes)-1 inclusive, in a counter wide enough to leave the loop (counter <= 0xffff in an int, or counter < 0x10000), and the prefix written is that counter; with the last value left out, a batch holding a header whose hash starts with 0xffff (one in 65536) fails for good - with no fault injected the store stops following the list", func() {
+		create := c.method("github.com/btcsuite/btcwallet/walletdb", "ReadWriteBucket", "CreateBucketIfNotExists")
+		// the helper, or whichever function of the package it was folded into
+		fn := c.P.Func("headerfs.ensureIndexSubBuckets")
+		if fn == nil {
+			for _, f := range c.storeFuncs() {
+				for _, in := range find(f, callTo(create)) {
+					if ir.LoopHeaderOf(in.Block()) != nil && fn == nil {
+						fn = f
+					}
+				}
+			}
+		}
+		if fn == nil {
+			c.undecided("headerfs | loop creating the prefix sub-buckets", "", "no CreateBucketIfNotExists call inside a loop found in package headerfs")
+			return
+		}
+		c.R.Funcs[c.nm(fn)] = true
+		nb := c.importConstIn("headerfs", "numSubBucketBytes")
+		want := int64(1)<<(8*uint(nb)) - 1
+		calls := find(fn, callTo(create))
+		construct := c.nm(fn) + " | one sub-bucket per prefix value"
+		var inLoop []ssa.Instruction
+		for _, in := range calls {
+			if ir.LoopHeaderOf(in.Block()) != nil {
+				inLoop = append(inLoop, in)
+			}
+		}
+		if len(inLoop) != 1 {
+			c.fail(construct, c.P.Pos(fn.Pos()), fmt.Sprintf("%d CreateBucketIfNotExists call(s) inside a loop, 1 tabled", len(inLoop)))
+			return
+		}
+		h := ir.LoopHeaderOf(inLoop[0].Block())
+		lf := loopFormOf(h)
+		if lf.problem != "" {
+			c.fail(construct, c.at(inLoop[0]), lf.problem)
+			return
+		}
+		var bad []string
+		if k, isC := ir.ConstInt(lf.init); !isC || k != 0 || lf.step != 1 || lf.pre {
+			bad = append(bad, "the counter does not run from 0 in steps of 1")
+		}
+		bk, isC := ir.ConstInt(lf.bound)
+		bits := int64(64)
+		if bt, ok := lf.phi.Type().Underlying().(*types.Basic); ok {
+			switch bt.Kind() {
+			case types.Uint8, types.Int8:
+				bits = 8
+			case types.Uint16, types.Int16:
+				bits = 16
+			case types.Uint32, types.Int32:
+				bits = 32
+			}
+		}
+		switch {
+		case !isC:
+			bad = append(bad, "the bound is not a constant")
+		case lf.op == token.LEQ && bk == want && bits > 8*nb:
+		case lf.op == token.LSS && bk == want+1:
+		default:
+			bad = append(bad, fmt.Sprintf("the loop test is counter %s %d on a %d-bit counter; tabled: counter <= %d (on a wider counter) or counter < %d", lf.op, bk, bits, want, want+1))
+		}
+		// the prefix of the bucket is the counter
+		put := false
+		ir.Instrs(fn, func(in ssa.Instruction) {
+			cc := ir.CallOf(in)
+			if cc == nil || ir.LoopHeaderOf(in.Block()) != h {
+				return
+			}
+			name := ""
+			if cc.IsInvoke() {
+				name = cc.Method.Name()
+			} else if f := cc.StaticCallee(); f != nil {
+				name = f.Name()
+			}
+			if name == "PutUint16" || name == "PutUint32" || name == "AppendUint16" {
+				if off, isCtr := counterOffset(lf, ir.Strip(cc.Args[len(cc.Args)-1])); isCtr && off == 0 {
+					put = true
+				} else if cv, isCv := cc.Args[len(cc.Args)-1].(*ssa.Convert); isCv {
+					if off, isCtr := counterOffset(lf, cv.X); isCtr && off == 0 {
+						put = true
+					}
+				}
+			}
+		})
+		if !put {
+			bad = append(bad, "the prefix written for the bucket is not the loop counter")
+		}
+		for _, e := range ir.LoopExits(h) {
+			if e == lf.exit {
+				continue
+			}
+			ir.WalkEdge(e, nil, func(in ssa.Instruction) bool {
+				if r, ok := in.(*ssa.Return); ok {
+					if errSuccess(r) {
+						bad = append(bad, "the loop can be left early at "+c.at(e.From.Instrs[len(e.From.Instrs)-1])+" and the function still succeeds")
+					}
+					return false
+				}
+				return true
+			})
+		}
+		sort.Strings(bad)
+		c.verdict(len(bad) == 0, construct, c.at(lf.test), fmt.Sprintf("counter 0..%d inclusive, prefix = counter, early exits fail", want), join(uniq(bad)), c.at(lf.test))
+	})
+
+	c.rule("C07.O7", "closing and reopening the block header store changes none of its answers, also after an append or a rollback that failed half-way: on every non-empty open NewBlockHeaderStore compares the index tip with the last record of the file (not with the record at the index tip\x27s own height, which always matches) and cuts the file back when they differ", func() {
+		c.startupReconciliation(reconSpec{fnNewB, "IsEqual"})
+	})
+	c.rule("C07.G3", "an ancestor range that lies within the chain is served: both FetchHeaderAncestors fail only with an error handed up from the index lookup or the file read, or - a refusal of their own - on the edge where the request is known to reach below the first header (numHeaders > height of the stop hash, in whatever spelling, and exactly that: the range [height-numHeaders, height] holds numHeaders+1 headers and starts at height 0 when the two are equal; a guard that is off by one refuses every range that begins with the genesis header - the first filter batch of a sync)", func() {
+		for _, name := range []string{"(*headerfs.blockHeaderStore).FetchHeaderAncestors", "(*headerfs.filterHeaderStore).FetchHeaderAncestors"} {
+			fn := c.fn(name)
+			hfh := c.hfs("headerIndex", "heightFromHash")
+			isEnd := func(v ssa.Value) bool {
+				ex, ok := ir.Strip(v).(*ssa.Extract)
+				return ok && ex.Index == 0 && valIsCallTo(hfh)(ex.Tuple)
+			}
+			isNum := func(v ssa.Value) bool { return ir.Strip(v) == ssa.Value(fn.Params[1]) }
+			g, odd := relGuard("numHeaders > height of the stop hash", fn, isNum, isEnd, token.GTR)
+			errT := types.Universe.Lookup("error").Type()
+			handedUp := func(v ssa.Value) bool {
+				return ir.InfluencedBy(v, func(x ssa.Value) bool {
+					if !types.Identical(x.Type(), errT) {
+						return false
+					}
+					switch y := x.(type) {
+					case *ssa.Extract:
+						_, isCall := y.Tuple.(*ssa.Call)
+						return isCall
+					case *ssa.Call:
+						return !ir.KnownNonNil(y)
+					}
+					return false
+				})
+			}
+			// refusals of its own: errors made here (fmt.Errorf / errors.New
+			// that wrap no error handed up from a call) that reach a return
+			var own []ssa.Instruction
+			nres := fn.Signature.Results().Len()
+			var rets []ssa.Value
+			for _, in := range find(fn, isExit) {
+				rets = append(rets, ir.RetVal(in.(*ssa.Return), nres-1))
+			}
+			ir.Instrs(fn, func(in ssa.Instruction) {
+				call, ok := in.(*ssa.Call)
+				if !ok || !ir.KnownNonNil(call) || !types.Identical(call.Type(), errT) {
+					return
+				}
+				for _, a := range call.Call.Args {
+					if handedUp(a) {
+						return
+					}
+				}
+				for _, rv := range rets {
+					if ir.DerivesFrom(rv, func(x ssa.Value) bool { return x == ssa.Value(call) }) {
+						own = append(own, in)
+						return
+					}
+				}
+			})
+			construct := c.nm(fn) + " | refuses only requests that reach below the first header"
+			if len(own) == 0 {
+				c.pass(construct, c.P.Pos(fn.Pos()), "no refusal of its own: every failure is handed up from the index lookup or the file read")
+				continue
+			}
+			if len(odd) > 0 {
+				c.fail(construct, c.P.Pos(fn.Pos()), "numHeaders is compared with the height of the stop hash by "+join(odd)+": only numHeaders > height means the range starts below height 0", c.ats(own)...)
+				continue
+			}
+			c.guarded(fn, g, 1, "refusal of the request", own, 1, gDominate)
+		}
+	})
+
 	c.rule("C07.P2", readsOneSectionDoc, func() { c.readsOneSection() })
 
 	c.rule("C07.O1", "a failed append leaves the store as before: in both WriteHeaders, when the index update (addHeaders / truncateIndices) fails, truncateHeaders(len(hdrs)) runs before every return", func() {
